@@ -126,7 +126,8 @@ def wrap_receiver(r, log, ident, A, P):
         _vid = ident(message)
         t = asyncio.current_task()
         t._vrole = "cb"
-        t.add_done_callback(lambda _t: log.add("cb.done", _vid))
+        # (fourth field: how the callback task ended, only when it ended in the cancelled state)
+        t.add_done_callback(lambda _t: log.add("cb.done", _vid, "cancelled" if _t.cancelled() else None))
         log.add("cb.start", _vid)
         try:
             return await ocb(message=message, raise_err=raise_err)
